@@ -115,8 +115,13 @@ def explore(fn, part, budget_s=60.0, per_path_s=20.0, max_paths=10 ** 9, known_s
                             with ResumedTracing():
                                 sample = tape.dump()
                     else:
-                        with ResumedTracing():
-                            refuted = tape.dump()
+                        fsig = ret.sig if isinstance(ret, Fail) else None
+                        if fsig is not None and fsig in known_sigs and fsig in seen_sigs:
+                            # this known finding was already confirmed by a concrete replay in this partition
+                            st['known'] += 1
+                        else:
+                            with ResumedTracing():
+                                refuted = tape.dump()
                         status = VerificationStatus.CONFIRMED
             except IgnoreAttempt:
                 st['ignored'] += 1
@@ -155,7 +160,9 @@ def explore(fn, part, budget_s=60.0, per_path_s=20.0, max_paths=10 ** 9, known_s
                     seen_sigs.add(v.sig)
                     st['known_hits'].append({'sig': v.sig, 'detail': v.detail[:600], 'tape': refuted})
             else:
-                st['violations'].append({'sig': v.sig, 'detail': v.detail[:2000], 'tape': refuted})
+                if v.sig not in seen_sigs:
+                    seen_sigs.add(v.sig)
+                    st['violations'].append({'sig': v.sig, 'detail': v.detail[:2000], 'tape': refuted})
                 if stop_on_violation:
                     break
         if exhausted:
